@@ -28,6 +28,7 @@ from antlr4 import InputStream, CommonTokenStream
 from explorerscript.antlr.SsbScriptLexer import SsbScriptLexer
 from explorerscript.antlr.SsbScriptParser import SsbScriptParser
 from explorerscript.error import ParseError, SsbCompilerError
+from explorerscript.util import _
 from explorerscript.source_map import SourceMap
 from explorerscript.ssb_converting.compiler.label_jump_to_remover import OpsLabelJumpToRemover
 from explorerscript.ssb_converting.ssb_data_types import SsbOperation, SsbRoutineInfo
@@ -96,6 +97,8 @@ class SsbScriptSsbCompiler:
             parser.start()
         except SsbCompilerError:
             raise
+        except RecursionError as e:
+            raise SsbCompilerError(_("The script is nested too deeply.")) from e
         except Exception:
             # The compiler listener runs while the parser is still at work. If the source has syntax errors, it sees
             # incomplete parse trees and may trip over them: report the syntax error then, it is the cause.
